@@ -7,7 +7,7 @@
    NumPy is an oracle constrained only by its documented contract (section
    hypotheses below); JAX keys are split paths. *)
 From Coq Require Import ZArith List Bool.
-From FV Require Import Common.ListX gen.Gen_client_samplers Model.C13_Model Proofs.C13_Proofs.
+From FV Require Import Common.ListX gen.Gen_client_samplers Model.C13_Model gen.Gen_client_samplers_model Proofs.C13_Proofs.
 Import ListNotations.
 Local Open Scope Z_scope.
 
@@ -43,8 +43,8 @@ Hypothesis choice_NoDup : forall s ids, NoDup ids -> NoDup (choice s ids n).
 Hypothesis cohort : 0 <= n <= Z.of_nat (length fd).
 Hypothesis ids_distinct : NoDup (map fst fd).
 
-Notation sample_at := (sample_at id_eqb rs_randint choice fd n seed).
-Notation outputs := (outputs id_eqb rs_randint choice fd n seed).
+Notation sample_at := (sample_at id_eqb (get_pseudo_random_state rs_randint) choice fd n seed).
+Notation outputs := (outputs id_eqb (get_pseudo_random_state rs_randint) choice fd n seed).
 
 (* After ANY history h from ANY initial round st, set_round_num(r) followed by k calls
    of sample() returns F(r), F(r+1), ... where F = sample_at depends on nothing but
@@ -87,7 +87,36 @@ Theorem C13_keys_distinct_within_and_across_rounds : forall r r' out out',
   (r = r' -> map snd out = map snd out') /\
   (r <> r' -> forall k k', In k (map snd out) -> In k' (map snd out') -> k <> k').
 Proof. exact (fun r r' out out' => sample_keys id_eqb rs_randint choice fd n seed id_eqb_eq choice_length choice_incl choice_NoDup r r' out out' cohort ids_distinct). Qed.
+(* ... and prefix-free: no key of any round is derived from a key of any round *)
+Theorem C13_keys_prefix_free : forall r r' out out',
+  sample_at r = Some out -> sample_at r' = Some out' ->
+  forall k k', In k (map snd out) -> In k' (map snd out') -> ~ ancestor k k' /\ ~ ancestor k' k.
+Proof. exact (fun r r' out out' => sample_keys_prefix_free id_eqb rs_randint choice fd n seed id_eqb_eq choice_length choice_incl choice_NoDup r r' out out' cohort ids_distinct). Qed.
 End C13.
+
+(* The correspondence evaluates the sampler with the power computed by square-and-multiply
+   (so that every round number is cheap); that model is the one the theorems are about. *)
+Theorem C13_run_model_is_theorem_model : forall {Id D} (id_eqb : Id -> Id -> bool) rs choice (fd : list (Id * D)) n seed ops st,
+  (forall s r, fast_random_state rs s r = get_pseudo_random_state rs s r) /\
+  outputs id_eqb (fast_random_state rs) choice fd n seed ops st =
+  outputs id_eqb (get_pseudo_random_state rs) choice fd n seed ops st.
+Proof. exact (fun Id D e rs ch fd n seed ops st => conj (fast_is_translated rs) (run_model_is_theorem_model e rs ch fd n seed ops st)). Qed.
+
+(* (T) UniformGetClientSampler.sample, UniformShuffledClientSampler.__init__ / sample as
+   translated on this run (choice over an object array without replacement, keys
+   split(PRNGKey(round), n), i-th client paired with i-th key, skip of start * n stream
+   items) are the functions of the model *)
+Theorem C13_translated_is_model : forall {Id D C} (id_eqb : Id -> Id -> bool) prs choice (fd : list (Id * D)) n seed r
+    (stream : nat -> C) pos start,
+  get_sample_gen id_eqb prs choice fd n seed r = sample_at id_eqb prs choice fd n seed r /\
+  stream_init_gen n start = s_init n start /\
+  s_sample stream n (pos, r) =
+    (fst (stream_take_gen stream n pos r),
+     (snd (stream_take_gen stream n pos r), match shuffled_sampler_next_round r with Some r' => r' | None => r end)).
+Proof.
+  exact (fun Id D C e prs ch fd n seed r stream pos start =>
+    conj (gen_get_sample_spec e prs ch fd n seed r) (conj (gen_stream_init_spec n start) (gen_stream_sample_spec stream n pos r))).
+Qed.
 
 (* The streaming sampler started at round `start` returns exactly rounds start,
    start+1, ... of the sampler started at round 0 over the same client stream. *)
@@ -110,7 +139,7 @@ Example C13_example :
   ((forall s ids, 0 <= 2 <= Z.of_nat (length ids) -> length (ch s ids 2) = Z.to_nat 2) /\
    (forall s ids, incl (ch s ids 2) ids) /\
    (forall s (ids : list Z), NoDup ids -> NoDup (ch s ids 2))) /\
-  outputs Z.eqb (fun _ _ _ => 5) ch [(10, 100); (11, 101); (12, 102)] 2 7 [Sample; SetRound 9; Sample] 3
+  outputs Z.eqb (get_pseudo_random_state (fun _ _ _ => 5)) ch [(10, 100); (11, 101); (12, 102)] 2 7 [Sample; SetRound 9; Sample] 3
   = [Some [(10, 100, KSplit (KRoot 3) 2 0); (11, 101, KSplit (KRoot 3) 2 1)];
      Some [(10, 100, KSplit (KRoot 9) 2 0); (11, 101, KSplit (KRoot 9) 2 1)]] /\
   get_pseudo_random_state (fun _ _ _ => 5) 7 3 = Some ((16807 ^ 3 mod (2 ^ 31 - 1) * 5) mod (2 ^ 31 - 1)).
@@ -121,5 +150,8 @@ Print Assumptions C13_history_independent.
 Print Assumptions C13_restart_reproduces.
 Print Assumptions C13_no_repeat_subset_of_dataset.
 Print Assumptions C13_keys_distinct_within_and_across_rounds.
+Print Assumptions C13_keys_prefix_free.
+Print Assumptions C13_run_model_is_theorem_model.
+Print Assumptions C13_translated_is_model.
 Print Assumptions C13_streaming_restart.
 Print Assumptions C13_streaming_rounds.
